@@ -14,7 +14,9 @@ import (
 	"verif/internal/c07"
 	"verif/internal/c08"
 	"verif/internal/c11"
+	"verif/internal/c09"
 	"verif/internal/c10"
+	"verif/internal/c12"
 	"verif/internal/c13"
 	"verif/internal/c14"
 	"verif/internal/c15"
@@ -35,8 +37,10 @@ var checks = map[string]func(tier, replay string){
 	"C07": c07.Main,
 	"C08": c08.Main,
 	"C11": c11.Main,
+	"C09": c09.Main,
 	"C10": c10.Main,
 	"C18": c10.Main18,
+	"C12": c12.Main,
 	"C13": c13.Main,
 	"C14": c14.Main,
 	"C15": c15.Main,
